@@ -26,6 +26,9 @@ def run(prog: Program, rep: Report):
     r9_call_local(prog, rep, pf, "C01.R9")
     r10_input_once(prog, rep, pf)
     feeder_early_exits(prog, rep, pf, "C01.R11")
+    from .ownership import rule_no_class_state
+    pools = [pf.pool] + [c for c in prog.classes.values() if c is not pf.pool and pf.pool in (c.mro or []) and not c.is_external]
+    rule_no_class_state(prog, rep, "C01.R12", pools + [pf.worker])
 
 
 # ---------------------------------------------------------------------------------------------- R1
